@@ -1,4 +1,7 @@
 import Tmv.Lemmas.NetLift
+import Tmv.Lemmas.ChainLift
+import Tmv.Lemmas.ChainRun
+import Tmv.Model.Validate
 /-! # C01 — agreement: correct nodes never commit different blocks at one height
 
 Theorems about the network model `Tmv.Net` (Tmv/Model/Net.lean): every correct validator runs the
@@ -18,8 +21,10 @@ behaviour of the faulty validators. `agreement` alone assumes that the faulty se
 one third of the power.
 
 Limits (stated, not hidden): one height; block validity is the parameter `valid` (C06); signatures
-ideal; the reactor's gossip is replaced by the log (safety does not depend on what is gossiped);
-the internal queue of a node is FIFO and never overflows (as in C02). -/
+ideal; the reactor's gossip is replaced by the log (safety does not depend on what is gossiped).
+NOT assumed: an order in which a node hears its own messages — `NetStep.own` hands a node ANY of its
+queued own messages at any later time (the C02 node theorems are stated for the FIFO schedule
+`Tmv.Cons.step`; here the per-item invariants behind them are re-used item by item). -/
 namespace Tmv.Props.C01
 open Tmv.Cons Tmv.Net Tmv.VoteLog
 
@@ -121,6 +126,33 @@ theorem decision_backed (nc : NetCfg) (s : Net) (hr : Reachable nc s) (p : Nat) 
       have hq' : 2 * (nc.node p).total < 3 * wtUpTo nc.power (voted (voteLog s.log) true r.toNat (some b')) nc.n := hq
       omega
 
+/-! ### block validity instantiated with the C06 model of `ValidateBlock` -/
+
+/-- the validity predicate of the consensus model instantiated with the model of
+`BlockExecutor.ValidateBlock` (state/validation.go, Tmv/Model/Validate.lean — the C06 model, whose
+`validate_iff_spec` says exactly which blocks pass) against the state `st` the nodes hold at this
+height; `blk` decodes a block id (hash + part-set header) into the block -/
+def validFrom (env : Validate.Env) (st : Validate.State) (blk : Nat → ProtoSize.Block) : Nat → Bool :=
+  fun b => match Validate.validateBlock env st (blk b) with
+    | .ok _ => true
+    | .error _ => false
+
+/-- **decision_backed, literally**: when block validity is `validateBlock` against the node's state,
+every block a correct node decides PASSED FULL VALIDATION AGAINST THAT STATE (`validateBlock env st
+(blk b) = ok`) and is backed by precommits for exactly it, in one round, in the log, from more than two
+thirds of the power. -/
+theorem decision_passed_validation (nc : NetCfg) (env : Validate.Env) (st : Validate.State)
+    (blk : Nat → ProtoSize.Block) (hv : nc.valid = validFrom env st blk)
+    (s : Net) (hr : Reachable nc s) (p : Nat) (hp : nc.correct p) (b : Nat) (hd : s.decided p = some b) :
+    Validate.validateBlock env st (blk b) = .ok () ∧ ∃ r, decidable nc.powers (voteLog s.log) r b := by
+  obtain ⟨h1, h2⟩ := decision_backed nc s hr p hp b hd
+  refine ⟨?_, h2⟩
+  rw [hv] at h1
+  unfold validFrom at h1
+  cases hvb : Validate.validateBlock env st (blk b) with
+  | ok u => cases u; rfl
+  | error e => rw [hvb] at h1; cases h1
+
 /-- **agreement**: while the faulty validators hold less than one third of the voting power, no two
 correct nodes ever decide different blocks — in every reachable state, i.e. for every delivery
 order, delay, duplication, loss, partition and every behaviour of the faulty validators. -/
@@ -134,13 +166,127 @@ theorem agreement (nc : NetCfg) (hf : 3 * nc.powers.wt nc.faulty < nc.powers.tot
   · exact agreement_le nc.powers nc.faulty _ hb hf r b r' b' hle d1 d2
   · exact (agreement_le nc.powers nc.faulty _ hb hf r' b' r b hle d2 d1).symm
 
+/-! ### All heights (the composition; model `Tmv.Chain`, Tmv/Model/Chain.lean)
+
+One network per height. A node makes moves at height `h` only after it has committed at every height
+below, and runs height `h` under the configuration `C.net S` of the state `S` IT holds — genesis with
+its own committed blocks applied by the (deterministic, C06) transition `C.apply`; nothing in the
+model makes two nodes hold the same state. The faulty validators of every height are given per
+height. `Bounded C W` is the per-height hypothesis made explicit: at every height a correct node has
+entered, the faulty validators of THAT height hold less than one third of the power of the validator
+set of THAT height (as determined by the state the node holds there). -/
+
+theorem agree1 : Chain.Agree1 :=
+  fun nc hf s hr p q hp hq b b' h1 h2 => agreement nc hf s hr p q hp hq b b' h1 h2
+
+/-- correct nodes hold the same replicated state at every height they have entered (so the same
+validator set, proposer table and validity predicate: the hypothesis "all correct nodes enter height h
+with the same state" of the one-height theorems is a consequence, not an assumption) -/
+theorem same_state_all_heights {σ : Type} (C : Chain.ChainCfg σ) (W : Chain.World) (hr : Chain.WReachable C W)
+    (hb : Chain.Bounded C W) (h p q : Nat) (hp : W.good C p h) (hq : W.good C q h)
+    (ep : W.entered p h) (eq : W.entered q h) : W.st C p h = W.st C q h :=
+  Chain.same_state agree1 C W hr hb h p q hp hq ep eq
+
+/-- **agreement_all_heights**: provided less than one third of the power OF EACH HEIGHT'S validator
+set is faulty (`Bounded`), no two correct nodes ever decide different blocks at ANY height — in every
+reachable world, i.e. every schedule within and across heights (nodes may be at different heights)
+and every behaviour of each height's faulty validators. -/
+theorem agreement_all_heights {σ : Type} (C : Chain.ChainCfg σ) (W : Chain.World) (hr : Chain.WReachable C W)
+    (hb : Chain.Bounded C W) (h p q : Nat) (hp : W.good C p h) (hq : W.good C q h) (b b' : Nat)
+    (h1 : W.decided p h = some b) (h2 : W.decided q h = some b') : b = b' :=
+  Chain.agreement_all_heights agree1 C W hr hb h p q hp hq b b' h1 h2
+
+/-- every height's network is a reachable state of the one-height model under the common
+configuration — so `log_behaved`, `decision_backed`, `decision_passed_validation` apply to every height -/
+theorem every_height_reachable {σ : Type} (C : Chain.ChainCfg σ) (W : Chain.World) (hr : Chain.WReachable C W)
+    (hb : Chain.Bounded C W) (h p : Nat) (hp : W.good C p h) (ep : W.entered p h) :
+    Reachable (C.netAt (W.st C p h) h) (W.nets h) :=
+  Chain.height_reachable agree1 C W hr hb h p hp ep
+
+/-! ### The composition instantiated with the C06 models of `ValidateBlock` / `ApplyBlock` -/
+
+/-- what the application answers for a block on a state (validator updates, parameter updates,
+results, app hash) — a function: the application is deterministic -/
+structure AppModel where
+  changed : Validate.State → ProtoSize.Block → Bool
+  nvals : Validate.State → ProtoSize.Block → Option Validate.ValSet
+  params : Validate.State → ProtoSize.Block → Option Validate.ParamUpdate
+  results : Validate.State → ProtoSize.Block → List Validate.TxResult
+  appHash : Validate.State → ProtoSize.Block → Bytes
+
+/-- the chain whose replicated state is the C06 `State`: block validity at a height is
+`validateBlock` against the state the node holds; the next state is `applyBlock` (= `validateBlock`,
+`updateState` on the application's answers, app hash) of the committed block; the validator set and the
+powers of a height are `State.vals`; the proposer table and the node's own block come from the state
+through `prop` / `own` (C08 / `CreateProposalBlock`) -/
+def c06Chain (env : Validate.Env) (incr : Validate.ValSet → Validate.ValSet) (app : AppModel)
+    (blk : Nat → ProtoSize.Block) (bid : Nat → ProtoSize.BlockID)
+    (prop : Validate.State → Nat → Nat) (own : Validate.State → Nat → Nat)
+    (genesis : Validate.State) (faulty : Nat → Nat → Bool) (checkHRS : Bool) : Chain.ChainCfg Validate.State where
+  genesis := genesis
+  apply := fun S b =>
+    match Validate.applyBlock env incr S (blk b) (bid b) (app.changed S (blk b)) (app.nvals S (blk b))
+        (app.params S (blk b)) (app.results S (blk b)) (app.appHash S (blk b)) with
+    | .ok S' => S'
+    | .error _ => S
+  net := fun S =>
+    { n := S.vals.length, power := fun v => ((S.vals.map (fun (x : Validate.Validator) => x.power))[v]?.getD 0).toNat,
+      faulty := fun _ => false, proposer := prop S, valid := validFrom env S blk, ownBlock := own S,
+      waitForTxs := false, needProofBlock := true, emptyInterval := false, checkHRS := checkHRS }
+  faulty := faulty
+
+/-- **all heights, with the C06 state machine**: every block a correct node commits at any height
+passed `validateBlock` against the state that node holds at that height — which is the same state at
+every correct node —, and no two correct nodes commit different blocks at any height. -/
+theorem agreement_all_heights_c06 (env : Validate.Env) (incr : Validate.ValSet → Validate.ValSet) (app : AppModel)
+    (blk : Nat → ProtoSize.Block) (bid : Nat → ProtoSize.BlockID)
+    (prop own : Validate.State → Nat → Nat) (genesis : Validate.State) (faulty : Nat → Nat → Bool) (hrs : Bool)
+    (W : Chain.World)
+    (hr : Chain.WReachable (c06Chain env incr app blk bid prop own genesis faulty hrs) W)
+    (hb : Chain.Bounded (c06Chain env incr app blk bid prop own genesis faulty hrs) W)
+    (h p q : Nat) (hp : W.good (c06Chain env incr app blk bid prop own genesis faulty hrs) p h)
+    (hq : W.good (c06Chain env incr app blk bid prop own genesis faulty hrs) q h) (b b' : Nat)
+    (h1 : W.decided p h = some b) (h2 : W.decided q h = some b') :
+    b = b' ∧
+    W.st (c06Chain env incr app blk bid prop own genesis faulty hrs) p h =
+      W.st (c06Chain env incr app blk bid prop own genesis faulty hrs) q h ∧
+    Validate.validateBlock env (W.st (c06Chain env incr app blk bid prop own genesis faulty hrs) p h) (blk b) = .ok () := by
+  have hJ := Chain.J.of_reachable agree1 _ W hr hb
+  have ep : W.entered p h := (hJ.j3 h p (Chain.nodes_ne_init_of_decided (by rw [show (W.nets h).decided p = W.decided p h from rfl, h1]; simp))).2
+  have eq : W.entered q h := (hJ.j3 h q (Chain.nodes_ne_init_of_decided (by rw [show (W.nets h).decided q = W.decided q h from rfl, h2]; simp))).2
+  refine ⟨agreement_all_heights _ W hr hb h p q hp hq b b' h1 h2,
+    same_state_all_heights _ W hr hb h p q hp hq ep eq, ?_⟩
+  have hreach := every_height_reachable _ W hr hb h p hp ep
+  exact (decision_passed_validation _ env _ blk rfl _ hreach p (hp h (Nat.le_refl _)) b h1).1
+
 /-! ### Non-vacuity: explicit traces of the network model -/
 
-/-- running a list of ops through `Net.apply` (an op that is not a transition is skipped) -/
+/-- running a list of ops through `Net.apply` with the FIFO schedule for own messages (an op that is
+not a transition is skipped) -/
 def runOps (nc : NetCfg) (s : Net) (ops : List Op) : Net :=
-  ops.foldl (fun s op => (s.apply nc op).getD s) s
+  ops.foldl (fun s op => (s.apply nc true op).getD s) s
 
-theorem apply_step (nc : NetCfg) (s s' : Net) (op : Op) (h : s.apply nc op = some s') : NetStep nc s s' := by
+theorem drainOwn_reachable (nc : NetCfg) (p : Nat) (hp : nc.correct p) (fuel : Nat) (s : Net)
+    (hr : Reachable nc s) : Reachable nc (s.drainOwn nc p fuel) := by
+  induction fuel generalizing s with
+  | zero => exact hr
+  | succ f ih =>
+    unfold Net.drainOwn
+    split
+    · exact hr
+    · exact ih _ (Reachable.step hr (NetStep.own s p 0 hp))
+
+theorem feedD_reachable (nc : NetCfg) (s : Net) (p : Nat) (i : Input) (d : Bool) (hp : nc.correct p)
+    (hr : Reachable nc s) (hs : NetStep nc s (s.feed nc p (.ext i))) : Reachable nc (s.feedD nc p i d) := by
+  unfold Net.feedD
+  simp only []
+  split
+  · exact drainOwn_reachable nc p hp _ _ (Reachable.step hr hs)
+  · exact Reachable.step hr hs
+
+/-- every applied op is a `NetStep`, or a `NetStep` followed by `own` steps -/
+theorem apply_reachable (nc : NetCfg) (s s' : Net) (d : Bool) (op : Op) (hr : Reachable nc s)
+    (h : s.apply nc d op = some s') : Reachable nc s' := by
   unfold Net.apply at h
   cases op with
   | deliver p k peer =>
@@ -150,21 +296,31 @@ theorem apply_step (nc : NetCfg) (s s' : Net) (op : Op) (h : s.apply nc op = som
       split at h
       · rename_i m hm
         cases h
-        have hk : k < s.log.length := by
-          have := List.getElem?_eq_some_iff.1 hm; exact this.1
+        have hk : k < s.log.length := (List.getElem?_eq_some_iff.1 hm).1
         have e : s.log[k] = m := (List.getElem?_eq_some_iff.1 hm).2
         rw [← e]
-        exact NetStep.deliver s p k peer hp hk
+        exact feedD_reachable nc s p _ d hp hr (NetStep.deliver s p k peer hp hk)
       · cases h
     · cases h
-  | block p b => simp only at h; split at h <;> cases h; exact NetStep.block s p b ‹_›
-  | claim p r t peer bid => simp only at h; split at h <;> cases h; exact NetStep.claim s p r t peer bid ‹_›
+  | block p b =>
+    simp only at h; split at h <;> cases h
+    exact feedD_reachable nc s p _ d ‹_› hr (NetStep.block s p b ‹_›)
+  | claim p r t peer bid =>
+    simp only at h; split at h <;> cases h
+    exact feedD_reachable nc s p _ false ‹_› hr (NetStep.claim s p r t peer bid ‹_›)
   | fire p r st =>
     simp only at h; split at h <;> cases h
     rename_i hc
-    exact NetStep.fire s p r st hc.1 hc.2
-  | txs p => simp only at h; split at h <;> cases h; exact NetStep.txs s p ‹_›
-  | byz m => simp only at h; split at h <;> cases h; exact NetStep.byz s m ‹_›
+    exact feedD_reachable nc s p _ d hc.1 hr (NetStep.fire s p r st hc.1 hc.2)
+  | txs p =>
+    simp only at h; split at h <;> cases h
+    exact feedD_reachable nc s p _ d ‹_› hr (NetStep.txs s p ‹_›)
+  | own p k =>
+    simp only at h; split at h <;> cases h
+    exact Reachable.step hr (NetStep.own s p k ‹_›)
+  | byz m =>
+    simp only at h; split at h <;> cases h
+    exact Reachable.step hr (NetStep.byz s m ‹_›)
 
 theorem runOps_reachable (nc : NetCfg) (ops : List Op) (s : Net) (hr : Reachable nc s) :
     Reachable nc (runOps nc s ops) := by
@@ -174,9 +330,9 @@ theorem runOps_reachable (nc : NetCfg) (ops : List Op) (s : Net) (hr : Reachable
     unfold runOps
     simp only [List.foldl]
     apply ih
-    cases h : s.apply nc op with
+    cases h : s.apply nc true op with
     | none => simpa using hr
-    | some s' => simpa using Reachable.step hr (apply_step nc s s' op h)
+    | some s' => simpa using apply_reachable nc s s' true op hr h
 
 /-- 4 validators of power 1, validator 3 faulty, proposer of round k is validator k mod 4 -/
 def exCfg (faulty : List Nat) : NetCfg where
@@ -271,5 +427,91 @@ theorem agreement_needs_less_than_one_third :
     ∃ s, Reachable (exCfg [2, 3]) s ∧ (exCfg [2, 3]).correct 0 ∧ (exCfg [2, 3]).correct 1 ∧
       s.decided 0 = some 0 ∧ s.decided 1 = some 1 :=
   ⟨runOps (exCfg [2, 3]) Net.init exSplit, runOps_reachable _ _ _ Reachable.init, by decide⟩
+
+/-- ops with an explicit schedule for the node's own messages: `false` = the node handles the input
+only, its own messages stay queued until `Op.own` ops hand them over -/
+def runOpsD (nc : NetCfg) (s : Net) (ops : List (Op × Bool)) : Net :=
+  ops.foldl (fun s od => (s.apply nc od.2 od.1).getD s) s
+
+theorem runOpsD_reachable (nc : NetCfg) (ops : List (Op × Bool)) (s : Net) (hr : Reachable nc s) :
+    Reachable nc (runOpsD nc s ops) := by
+  induction ops generalizing s with
+  | nil => exact hr
+  | cons od ops ih =>
+    unfold runOpsD
+    simp only [List.foldl]
+    apply ih
+    cases h : s.apply nc od.2 od.1 with
+    | none => simpa using hr
+    | some s' => simpa using apply_reachable nc s s' od.2 od.1 hr h
+
+/-- validator 0 proposes but hears its OWN proposal and block part only after the others' prevotes,
+and its own prevote only after the others' precommits (its internal queue is served late) -/
+def exOwnLate : List (Op × Bool) :=
+  [(.fire 0 0 .newHeight, false), (.fire 1 0 .newHeight, true), (.fire 2 0 .newHeight, true),
+   (.deliver 1 0 1, true), (.block 1 0, true), (.deliver 2 0 1, true), (.block 2 0, true),
+   (.deliver 0 1 1, false), (.deliver 0 2 1, false), (.own 0 0, true), (.own 0 0, true),
+   (.deliver 1 2 1, true), (.deliver 2 1 1, true), (.deliver 1 3 1, true), (.deliver 2 3 1, true),
+   (.deliver 0 4 1, false), (.deliver 0 5 1, false), (.own 0 0, true), (.own 0 0, true),
+   (.deliver 1 5 1, true), (.deliver 1 6 1, true), (.deliver 2 4 1, true), (.deliver 2 6 1, true)]
+
+/-- … and all three correct validators still decide block 0 (the model's schedule for own messages is
+free: `agreement` does not rest on a FIFO internal queue) -/
+example :
+    let s := runOpsD (exCfg [3]) Net.init exOwnLate
+    s.decided 0 = some 0 ∧ s.decided 1 = some 0 ∧ s.decided 2 = some 0 := by decide
+
+/-! ### Non-vacuity of the composition: a two-height run with a changing validator set -/
+
+/-- state = the list of committed block ids; validator powers (1,1,1,1 then 2,1,1,1), proposer rotation
+and the nodes' own blocks depend on the height through the state; validator 3 is faulty at every height -/
+def exChain : Chain.ChainCfg (List Nat) where
+  genesis := []
+  apply := fun S b => S ++ [b]
+  net := fun S =>
+    { n := 4, power := fun v => if S.length = 0 then 1 else if v = 0 then 2 else 1,
+      faulty := fun _ => false, proposer := fun k => (k + S.length) % 4, valid := fun _ => true,
+      ownBlock := fun p => 10 * S.length + p, waitForTxs := false, needProofBlock := true,
+      emptyInterval := false, checkHRS := true }
+  faulty := fun _ v => v == 3
+
+/-- height 0: validator 0 proposes block 0; 0 and 1 decide it and move on to height 1 (proposer 1,
+block 11) while 2 has not yet heard the height-0 precommits — its height-1 start is refused; then 2
+finishes height 0, joins height 1, and all three decide block 11 -/
+def exTwoHeights : List (Nat × Op) :=
+  [(0, .fire 0 0 .newHeight), (0, .fire 1 0 .newHeight), (0, .fire 2 0 .newHeight),
+   (0, .deliver 1 0 1), (0, .block 1 0), (0, .deliver 2 0 1), (0, .block 2 0),
+   (0, .deliver 0 2 1), (0, .deliver 0 3 1), (0, .deliver 1 1 1), (0, .deliver 1 3 1),
+   (0, .deliver 2 1 1), (0, .deliver 2 2 1),
+   (0, .deliver 0 5 1), (0, .deliver 0 6 1), (0, .deliver 1 4 1), (0, .deliver 1 6 1),
+   (1, .fire 1 0 .newHeight), (1, .fire 0 0 .newHeight), (1, .fire 2 0 .newHeight),
+   (1, .deliver 0 0 1), (1, .block 0 11),
+   (0, .deliver 2 4 1), (0, .deliver 2 5 1),
+   (1, .fire 2 0 .newHeight), (1, .deliver 2 0 1), (1, .block 2 11),
+   (1, .deliver 0 1 1), (1, .deliver 0 3 1), (1, .deliver 1 2 1), (1, .deliver 1 3 1),
+   (1, .deliver 2 1 1), (1, .deliver 2 2 1),
+   (1, .deliver 0 5 1), (1, .deliver 0 6 1), (1, .deliver 1 4 1), (1, .deliver 1 6 1),
+   (1, .deliver 2 4 1), (1, .deliver 2 5 1)]
+
+example : Chain.WReachable exChain (Chain.World.init.run exChain exTwoHeights) :=
+  Chain.run_reachable _ _ _ Chain.WReachable.init
+
+set_option maxRecDepth 16000 in
+/-- the hypotheses of `agreement_all_heights` hold of this run at both heights (correct, entered,
+per-height bound: 1 of 4 at height 0, 1 of 5 at height 1) and all three validators committed block 0
+and then block 11, holding the same state `[0, 11]` -/
+example :
+    let W := Chain.World.init.run exChain exTwoHeights
+    (∀ p, p < 3 → W.good exChain p 1 ∧ W.entered p 2 ∧ W.decided p 0 = some 0 ∧ W.decided p 1 = some 11 ∧
+      W.st exChain p 2 = [0, 11] ∧ exChain.bound (W.st exChain p 0) 0 ∧ exChain.bound (W.st exChain p 1) 1) := by
+  decide
+
+set_option maxRecDepth 16000 in
+/-- a node cannot move at a height before it has committed the one below: after the first 19 ops
+validator 2 is still at height 0 and its height-1 start is not a transition -/
+example :
+    let W := Chain.World.init.run exChain (exTwoHeights.take 19)
+    W.decided 2 0 = none ∧ W.applyOp exChain 1 true (.fire 2 0 .newHeight) = none ∧
+    (W.applyOp exChain 1 true (.fire 0 0 .newHeight)).isSome = true := by decide
 
 end Tmv.Props.C01
